@@ -447,3 +447,57 @@ fn promote_container_to_array(container: &Container, hll_type: HllType, lg_confi
         }
     }
 }
+
+#[cfg(feature = "verif-hooks")]
+impl HllSketch {
+    /// Verification hook: offer an already-formed coupon `(value << 26) | slot`.
+    #[doc(hidden)]
+    pub fn verif_update_with_coupon(&mut self, coupon: u32) {
+        self.update_with_coupon(coupon);
+    }
+
+    /// Verification hook: dump the internal state without going through the serializer.
+    #[doc(hidden)]
+    pub fn verif_state(&self) -> crate::verif::HllState {
+        let mut st = crate::verif::HllState {
+            lg_config_k: self.lg_config_k,
+            tgt_type: self.target_type() as u8,
+            cur_mode: 0,
+            coupons: vec![],
+            lg_arr: 0,
+            registers: vec![],
+            cur_min: 0,
+            num_at_cur_min: 0,
+            aux: vec![],
+            hip_accum: 0.0,
+            kxq0: 0.0,
+            kxq1: 0.0,
+            out_of_order: false,
+        };
+        match &self.mode {
+            Mode::List { list, .. } => {
+                st.cur_mode = 0;
+                st.coupons = list.container().iter().collect();
+                st.lg_arr = list.container().lg_size() as u8;
+            }
+            Mode::Set { set, .. } => {
+                st.cur_mode = 1;
+                st.coupons = set.container().iter().collect();
+                st.lg_arr = set.container().lg_size() as u8;
+            }
+            Mode::Array4(arr) => {
+                st.cur_mode = 2;
+                arr.verif_fill_state(&mut st);
+            }
+            Mode::Array6(arr) => {
+                st.cur_mode = 2;
+                arr.verif_fill_state(&mut st);
+            }
+            Mode::Array8(arr) => {
+                st.cur_mode = 2;
+                arr.verif_fill_state(&mut st);
+            }
+        }
+        st
+    }
+}
